@@ -299,6 +299,7 @@ pub struct Thread {
     store_begin_seq: u64,
     handler_entry_opseq: u64,
     pub wake_calls: u64,
+    pub spins: u64,
     pub own_steps0: u64,
     pub name: &'static str,
     cas_spur_run: u32,
@@ -409,6 +410,8 @@ pub struct Sim {
     /// section until that writer has finished (Some(remaining uses))
     pub stall_later_reader: u32,
     stalled_for: Option<(usize, usize)>,
+    /// how many consecutive fruitless solo spin points make a livelock (default 2)
+    pub spin_patience: u32,
     pub inject_at: Option<(usize, u64)>,
 }
 
@@ -451,6 +454,7 @@ pub fn init(mode: ChooserMode) {
         thread_panic_prop: None,
         stall_later_reader: 0,
         stalled_for: None,
+        spin_patience: 2,
         inject_at: None,
     });
     unsafe {
@@ -720,6 +724,7 @@ impl Thread {
             store_begin_seq: 0,
             handler_entry_opseq: 0,
             wake_calls: 0,
+            spins: 0,
             own_steps0: 0,
             name,
             cas_spur_run: 0,
@@ -1240,6 +1245,16 @@ pub fn note_wake_call() {
     let me = s.cur;
     s.threads[me].wake_calls += 1;
 }
+pub fn set_spin_patience(n: u32) {
+    sim().spin_patience = n;
+}
+pub fn thread_spins(t: usize) -> u64 {
+    sim().threads[t].spins
+}
+pub fn thaw(t: usize) {
+    sim().threads[t].frozen = false;
+    log(EV_FREEZE, t as u64, 6);
+}
 pub fn set_stall_later_reader(n: u32) {
     sim().stall_later_reader = n;
 }
@@ -1405,13 +1420,14 @@ pub fn spin_point(kind: u16) {
         let th = &mut s.threads[me];
         if th.spinning && th.spin_epoch == epoch && !others {
             th.spin_stuck += 1;
-            if th.spin_stuck >= 2 {
+            if th.spin_stuck >= s.spin_patience {
                 s.deadlock(me, true);
             }
         } else {
             th.spin_stuck = 0;
         }
         th.spinning = true;
+        th.spins += 1;
         th.spin_epoch = epoch;
         if let Policy::Pct(_) = s.cfg.policy {
             // classic PCT: a yield drops the priority below everybody
@@ -2084,6 +2100,10 @@ pub fn deliver(sig: i32, info: *mut libc::siginfo_t, ctx: *mut libc::c_void) -> 
     DEPTH.with(|d| d.set(d.get() + 1));
     if shm::is_set() {
         shm::get().in_handler_now += 1;
+        // fault: a signal interrupts a thread whose errno holds anything, in particular the EINTR
+        // of the very call it interrupted (deterministic rotation, no PRNG draw)
+        let n = shm::get().counters[C_DELIVERIES] + shm::get().counters[C_DELIVER_DEFAULT];
+        unsafe { *libc::__errno_location() = [libc::EINTR, 0, libc::EAGAIN, libc::EINTR, libc::EBADF][(n % 5) as usize] };
     }
     unsafe {
         if cur.sa_flags & libc::SA_SIGINFO != 0 {
